@@ -112,7 +112,8 @@ class AstNode(object):
         * namespace member
         * enumerator
         """
-        raise NotImplemented  # virtual function
+        # Not a scope (typedef, enum, variable): it has no members.
+        return None
 
     def unqualified_lookup(self, name):
         """Look for symbols within a scope.
